@@ -26,6 +26,7 @@ type Check struct {
 	// Special is a non-E1 check body (E2/E3/E4 or custom enumeration); it fills the report itself.
 	Special func(tier Tier, rep *engine.Report) error
 	Replay  func(raw []byte) int // replays a Special check's artefact
+	Confirm func(raw []byte) bool // re-runs a Special finding; true if it reproduces
 	Rule    string // how cases are enumerated / what counts as non-trivial
 	Assume  []string
 }
